@@ -132,7 +132,42 @@ class CallMixin:
         rec.result = r
         return r
 
+    def may_raise(self, func: FuncInfo, depth=0):
+        """Names of the exception classes func can raise by explicit `raise` statements (its own and, two levels down, those
+        of the repository functions it calls by name)."""
+        cache = self.__dict__.setdefault("_may_raise", {})
+        k = func.module.name + ":" + func.qualname
+        if k in cache:
+            return cache[k]
+        cache[k] = set()
+        out = set()
+        for n in ast.walk(func.node):
+            if isinstance(n, ast.Raise) and n.exc is not None:
+                e = n.exc.func if isinstance(n.exc, ast.Call) else n.exc
+                out.add(ast.unparse(e).split(".")[-1])
+            elif isinstance(n, ast.Call) and depth < 2:
+                name = n.func.attr if isinstance(n.func, ast.Attribute) else (n.func.id if isinstance(n.func, ast.Name) else None)
+                if name:
+                    for g in self.repo.all_functions():
+                        if g.name == name and g is not func:
+                            out |= self.may_raise(g, depth + 1)
+                            break
+        cache[k] = out
+        return out
+
     def uninterpreted(self, func: FuncInfo, bound, frame, node):
+        # a callee that is kept uninterpreted may still reject its arguments: inside a try block that would catch the
+        # rejection, the path on which it does is explored too (otherwise a handler that swallows it would never be seen)
+        for caught in reversed(getattr(self.ctx, "try_stack", []) or []):
+            if not caught:
+                continue
+            kinds = self.may_raise(func)
+            hit = [c for c in caught if c in kinds or (c in ("*", "Exception", "BaseException") and kinds)]
+            if hit:
+                exc = hit[0] if hit[0] not in ("*", "Exception", "BaseException") else sorted(kinds)[0]
+                if self.ctx.decide(("raises", func.qualname, exc), frame.loc(node)):
+                    raise RaiseSignal(exc, "raised by %s" % func.qualname, node, frame)
+            break
         keys = []
         for p in func.params + func.kwonly:
             v = bound.get(p)
